@@ -6,7 +6,8 @@ from ..contracts.eg_predict import PmfPredict as EGPmf
 from ..contracts.eg_predict import Predict as EGPredict
 from ..contracts.eg_predict import ThresholderPredict
 from ..contracts.pmf import PmfPredict
-from ..contracts.to_eo import EqualizedOddsCurves
+from ..contracts.to_eo import EqualizedOddsCurves, EqualizedOddsEntries
+from ..contracts.to_simple import SimpleConstraints
 from ..contracts.tradeoff import TradeoffPoints
 from ..pyvc import solve, verify
 
@@ -33,9 +34,13 @@ def items(rep):
     _lemmas(rep)
     return [(PmfPredict(), [("operations_swapped", verify.replace_expr("interpolation.operation1(base_predictions_vector)", "interpolation.operation0(base_predictions_vector)")),
                             ("p_ignore_complement_dropped", verify.replace_expr("(1 - interpolation.p_ignore) * interpolated_predictions", "interpolation.p_ignore * interpolated_predictions")),
-                            ("negative_column_not_complement", verify.replace_expr("1.0 - positive_probs", "positive_probs"))]),
+                            ("negative_column_not_complement", verify.replace_expr("1.0 - positive_probs", "positive_probs")),
+                            ("scored_by_the_constructor_argument", verify.replace_expr("self.estimator_", "self.estimator", 0))]),
             # 'without flip, P(1) never decreases with the score': the flip setting reaches the curve construction, which then emits '>' rules only
             (EqualizedOddsCurves(), [("flip_setting_not_passed_on", verify.replace_expr("_tradeoff_curve(group, sensitive_feature_value, flip=self.flip)", "_tradeoff_curve(group, sensitive_feature_value, flip=True)"))]),
+            # 'depends only on the row's score': the fitted rule scores query rows with the predict method the thresholds were learned on (both fit paths)
+            (EqualizedOddsEntries(), [("fitted_rule_uses_the_default_predict_method", verify.replace_expr("predict_method=self._predict_method", "predict_method='auto'", 0))]),
+            (SimpleConstraints(), [("fitted_rule_uses_the_default_predict_method", verify.replace_expr("predict_method=self._predict_method", "predict_method='auto'", 0))]),
             (TradeoffPoints("false_positive_rate", "true_positive_rate", False), [("flipped_rules_although_flip_is_off", verify.replace_expr("flip", "True", 0))]),
             (ThresholderPredict(), [("seed_zero_treated_as_no_seed", verify.replace_expr("check_random_state(random_state)", "check_random_state(random_state if random_state else None)")),
                                     ("strict_comparison_with_the_draw", verify.flip_strictness(0))]),
